@@ -23,7 +23,7 @@ import sys
 
 sys.path.insert(0, os.path.dirname(os.path.abspath(__file__)))
 from rtok import lex, untok, match_close, Tok
-from extract import find_item, LostAnchor
+from extract import find_item, find_closure, LostAnchor
 import rules as R
 
 VERIF = os.path.dirname(os.path.dirname(os.path.abspath(__file__)))
@@ -213,6 +213,8 @@ def build(template_path, repo, variant="strict"):
                 opts["rules"] = d2.split()[1:]
             elif d2.startswith("r13 "):
                 opts.setdefault("r13", []).append(int(d2.split()[1]))
+            elif d2.startswith("sig "):
+                opts["sig"] = d2[len("sig "):].strip()
             elif d2.startswith("derive "):
                 opts["derive"] = d2[len("derive "):].strip()
             elif d2 == "nocanary":
@@ -242,7 +244,26 @@ def build(template_path, repo, variant="strict"):
         path = os.path.join(repo, relfile)
         if not os.path.exists(path):
             raise LostAnchor("file %s not found" % relfile)
-        item = find_item(path, selector)
+        mclo = re.match(r"closure\s+(.*)#(\d+)$", selector)
+        if mclo:
+            item = find_closure(path, mclo.group(1).strip(), int(mclo.group(2)))
+            if not opts.get("sig"):
+                raise ValueError("closure extraction needs a `sig` option")
+            # present the closure as a function: signature from the unit, body from the repository
+            from rtok import lex as _lex
+            body = list(item.toks)
+            if not (body[0].kind == "punct" and body[0].text == "{"):
+                body = R.syn("{ ") + body + R.syn(" }")
+            sigt = R.syn(opts["sig"] + " ")
+            item.toks = sigt + body
+            item.kind = "fn"
+            m_nm = re.search(r"\bfn\s+(\w+)", opts["sig"])
+            item.name = m_nm.group(1)
+            opts["rules"] = [r for r in opts["rules"] if r != "R2"]
+            opts["closure_sig"] = True
+            res.rewrites.append(("R18", "%s:%d %s" % (relfile, item.line0, selector), "closure " + (item.header or ""), opts["sig"]))
+        else:
+            item = find_item(path, selector)
         src = open(path).read()
 
         def src_line_of(pos, _src=src):
@@ -288,7 +309,8 @@ def build(template_path, repo, variant="strict"):
                         sig[q] = Tok("ident", opts["rename"], sig[q].start, sig[q].end)
                         gen_name = opts["rename"]
                         break
-            sig = R.name_result(sig, opts["ret"])
+            if not opts.get("closure_sig"):
+                sig = R.name_result(sig, opts["ret"])
             # loops
             loops = R.find_loops(body)
             ins = {}
